@@ -195,8 +195,20 @@ def execute(case):
         rec["computes"] = cnt.n
         rec["lazy"] = bool(dask.is_dask_collection(res.data))
         sched = "synchronous" if case["sched"] == "sync" else "threads"
+        other = None
+        if case["kind"] == "op" and case.get("id", 0) % 2 == 0:
+            # a second lazy result of the same operation on the same data under ANOTHER rule, computed in the same
+            # dask computation: what a result computes to does not depend on what it is computed together with
+            try:
+                a2 = dict(case["args"], boundary=S("extend" if case["args"]["boundary"].get("v") != "extend" else "fill"), fill_value=S(5))
+                other = call(dict(case, args=a2), grid, ds, nm, lazy=True)
+            except Exception:
+                other = None
         with dask.config.set(scheduler=sched):
-            res = res.compute()
+            if other is not None:
+                res, _ = dask.compute(res, other)
+            else:
+                res = res.compute()
         rec["out"] = enc(res)
     except Exception as ex:
         rec["out"] = model.encode_error(ex)
